@@ -514,7 +514,7 @@ Verdict evaluate(const TreePlan& p, Stats& st) {
 TreePlan generate(sim::Rng& g) {
     TreePlan p;
     p.nDirs = g.range(1, 3);
-    static const char* pk[] = {"a", "b", "util", "bloch"};
+    static const char* pk[] = {"a", "b", "util", "bloch", "blochkit", "bloch_ext"};   // the last two only look like the stdlib namespace
     static const char* sub[] = {"x", "y", "lang"};
     static const char* names[] = {"Alpha", "Beta", "Core", "Delta", "Main", "Zed", "Object", "Util", "Bit_Utils", "_Impl", "x9", "A"};
     int nMods = g.range(1, 9);
@@ -522,7 +522,7 @@ TreePlan generate(sim::Rng& g) {
     auto randPath = [&]() {
         std::vector<std::string> path;
         int depth = (int)g.below(4);
-        if (depth >= 1) path.push_back(pk[g.below(4)]);
+        if (depth >= 1) path.push_back(pk[g.below(6)]);
         if (depth >= 2) path.push_back(sub[g.below(3)]);
         if (depth >= 3) path.push_back("deep");
         return path;
